@@ -535,6 +535,8 @@ func ProcessRedTracesIngest(myid int64) {
 		searchRequestBody.From += 1000
 	}
 
+	spans = dropRedeliveredSpans(spans)
+
 	if len(spans) == 0 {
 		return
 	}
@@ -689,6 +691,22 @@ func decodeSpans(responseBody []byte) (spans []*structs.Span, numRecords int, er
 	return spans, len(rawSpanData.Hits.Records), nil
 }
 
+// A span that was delivered more than once (an exporter that retries after a timeout) is stored once per delivery.
+// Keeps the first of the spans with the same trace id and span id.
+func dropRedeliveredSpans(spans []*structs.Span) []*structs.Span {
+	seen := make(map[[2]string]struct{}, len(spans))
+	kept := spans[:0]
+	for _, span := range spans {
+		key := [2]string{span.TraceID, span.SpanID}
+		if _, ok := seen[key]; ok {
+			continue
+		}
+		seen[key] = struct{}{}
+		kept = append(kept, span)
+	}
+	return kept
+}
+
 func redMetricsToJson(redMetrics structs.RedMetrics, service string) ([]byte, error) {
 	result := make(map[string]interface{})
 	result["service"] = service
@@ -769,6 +787,8 @@ func MakeTracesDependancyGraph(startEpoch int64, endEpoch int64, myid int64) map
 		spans = append(spans, pageSpans...)
 		from += 1000
 	}
+
+	spans = dropRedeliveredSpans(spans)
 
 	spanIdToServiceName := make(map[string]string)
 	dependencyMatrix := make(map[string]map[string]int)
